@@ -1,12 +1,14 @@
 #!/bin/bash
 # verify_seeded.sh <worktree> : confirm a seeded change (applied in the worktree, demo in tests/seeded_demo.rs)
 # fails its demo, passes the baseline suite, and that the demo passes without the change.
+# (no git stash: the stash is shared between worktrees)
 wt=$1
 cd $wt || exit 2
 export CARGO_NET_OFFLINE=true
 echo "== demo WITH change (must fail)"; cargo test --offline --test seeded_demo 2>&1 | grep -E "^test result|panicked|error(\[|:)" | head -5
 echo "== baseline suite WITH change (must pass 443+2)"; (cargo test --offline --workspace --no-fail-fast --lib 2>&1; cargo test --offline --workspace --no-fail-fast --doc 2>&1) | grep -E "^test result" | head -3
-git stash push -q -- lib Cargo.toml 2>/dev/null || git stash push -q -- lib
+git diff -- lib Cargo.toml > $wt-out/verify.diff
+git apply -R $wt-out/verify.diff || exit 2
 echo "== demo WITHOUT change (must pass)"; cargo test --offline --test seeded_demo 2>&1 | grep -E "^test result|panicked|error(\[|:)" | head -5
-git stash pop -q
+git apply $wt-out/verify.diff
 git status --short | head -5
